@@ -271,7 +271,7 @@ def c_stmt(st):
 def c_entity(e):
     k = e[0]
     if k == "func":
-        return f"(EFunc {coq_str(e[1])} {coq_str(e[2])} {coq_bool(e[3])})"
+        return f"(EFunc {coq_str(e[1])} {coq_str(e[2])})"
     if k == "proc":
         return f"(EProc {coq_str(e[1])})"
     if k == "var":
@@ -840,7 +840,7 @@ def type_labels(proj):
             for c, ct in t["typed"] + t["typed_arrays"]:
                 ls.append((c, ("var", ct, True)))
             for b in t["fbinds"] + t["sbinds"]:
-                ls.append((b, ("proc", f"{m['name']}.{t['name']}.{b}")))
+                ls.append((b, ("proc", f"@{m['name']}.{t['name']}.{b}")))
             out.append((t["name"], ls))
     return out
 
@@ -859,8 +859,8 @@ def truth_table(proj, mod, unit, host):
         scope.append((unit["name"], ("var", "integer", True)))
 
     def proc_ent(owner, p):
-        pid = f"{owner}.{p['name']}"
-        return ("func", pid, "integer", True) if p["kind"] == "function" else ("proc", pid)
+        pid = f"@{owner}.{p['name']}"
+        return ("func", pid, "integer") if p["kind"] == "function" else ("proc", pid)
     if proj["program"] and unit is proj["program"]["unit"]:
         for p in proj["program"]["procs"]:
             scope.append((p["name"], proc_ent("main_p", p)))
